@@ -92,7 +92,10 @@ def op_no_unit(rnd, variant=None):
 
 def op_second_ref_unit(rnd, variant=None):
     d = base(rnd, "ref")
-    which = pick(rnd, ["another", "repeated-at-end", "repeated-at-start"], variant)
+    which = pick(rnd, ["another", "repeated-at-end", "repeated-at-start", "path-only", "name-value"], variant)
+    if which in ("path-only", "name-value"):
+        d["extra_attrs"] = ["#[ref_unit]" if which == "path-only" else "#[ref_unit = 1]"]
+        return "second reference unit attribute (%s form)" % which, [], emit(d)
     if which == "another":
         extra = defgen.random_units(rnd, 1, False, set())[0]
         d["extra_attrs"] = ['#[ref_unit(%s, %s)]' % (extra["id"], defgen.rust_str(extra["symbol"]))]
@@ -143,7 +146,8 @@ def op_args(rnd, variant=None):
     which = pick(rnd, ["drop-symbol", "drop-ident", "dup-symbol", "swap-ident-symbol", "symbol-as-ident",
                        "ident-as-string", "sixth-arg", "scale-before-prefix", "empty", "no-parens", "scale-as-string",
                        "prefix-as-string-before-scale", "doc-as-ident",
-                       "no-comma-0", "no-comma-1", "no-comma-2", "no-comma-3", "semicolon-2"], variant)
+                       "no-comma-0", "no-comma-1", "no-comma-2", "no-comma-3", "semicolon-2",
+                       "name-value", "braces", "brackets"], variant)
     if which == "drop-symbol":
         b = [a[0]] + a[2:]
     elif which == "drop-ident":
@@ -172,6 +176,11 @@ def op_args(rnd, variant=None):
         sep = "; " if which == "semicolon-2" else " "
         t = "".join(x + (sep if j == k else ", ") for j, x in enumerate(a[:-1])) + a[-1]
         return "attribute arguments: %s" % which, [], emit(raw_attr(d, i, "#[unit(%s)]" % t))
+    elif which == "name-value":
+        return "attribute arguments: name-value form", [], emit(raw_attr(d, i, '#[unit = "%s"]' % a[0]))
+    elif which in ("braces", "brackets"):
+        o, c = ("{", "}") if which == "braces" else ("[", "]")
+        return "attribute arguments: %s without content" % which, [], emit(raw_attr(d, i, "#[unit%s%s]" % (o, c)))
     elif which == "empty":
         return "attribute arguments: empty list", [], emit(raw_attr(d, i, "#[unit()]"))
     else:
@@ -183,7 +192,11 @@ def op_ref_args(rnd, variant=None):
     d = base(rnd, "ref")
     i = next(i for i, u in enumerate(d["units"]) if u["ref"])
     u = d["units"][i]
-    which = pick(rnd, ["drop-symbol", "five-args", "symbol-as-ident", "empty", "no-comma-0", "no-comma-1", "no-comma-2"], variant)
+    which = pick(rnd, ["drop-symbol", "five-args", "symbol-as-ident", "empty", "no-comma-0", "no-comma-1", "no-comma-2", "path-only", "name-value"], variant)
+    if which == "path-only":
+        return "reference unit arguments: path only", [], emit(raw_attr(d, i, "#[ref_unit]"))
+    if which == "name-value":
+        return "reference unit arguments: name-value form", [], emit(raw_attr(d, i, "#[ref_unit = 1]"))
     if which.startswith("no-comma-"):
         k = int(which[-1])
         a = [u["id"], defgen.rust_str(u["symbol"]), u["prefix"] or "NONE", defgen.rust_str(u["doc"] or "doc")]
@@ -253,8 +266,8 @@ OPERATORS = [op_no_unit, op_second_ref_unit, op_ref_unit_with_scale, op_missing_
              op_bad_derivation, op_bad_derivation, op_derived_no_ref, op_derived_no_ref]
 
 # number of enumerable sub-variants per operator (every one occurs once per batch)
-VARIANTS = {"op_no_unit": 3, "op_second_ref_unit": 3, "op_ref_unit_with_scale": 4, "op_missing_scale": 1,
-            "op_scale_without_ref": 4, "op_prefix_without_ref": 3, "op_args": 18, "op_ref_args": 7, "op_fields": 4,
+VARIANTS = {"op_no_unit": 3, "op_second_ref_unit": 5, "op_ref_unit_with_scale": 4, "op_missing_scale": 1,
+            "op_scale_without_ref": 4, "op_prefix_without_ref": 3, "op_args": 21, "op_ref_args": 9, "op_fields": 4,
             "op_generics": 5, "op_not_struct": 7, "op_bad_derivation": 29, "op_derived_no_ref": 6}
 
 
